@@ -230,7 +230,15 @@ pub fn worlds_for_c01() -> Vec<(Arc<World>, Vec<Sym>, &'static str)> {
     v.push((mk(spec_min("W-min")), alphabet_main(), "main"));
     v.push((mk(spec_user("W-user2", 2, true)), alphabet_user(), "user"));
     v.push((mk(spec_reordered("W-full-reordered")), alphabet_reordered(), "reordered"));
+    v.push((mk(spec_full("W-full-interaction", true)), alphabet_interaction(), "interaction"));
     v
+}
+
+/// for the interaction of two input-text plugins: symbols that the table-driven plugin rewrites to text of the
+/// SAME total byte length with the bytes moved (`ｶﾞ` shrinks by three bytes, `½` grows by three), around
+/// what the later plugins edit (runs of long marks, bracketed readings)
+pub fn alphabet_interaction() -> Vec<Sym> {
+    syms(&["ｶﾞ", "½", "ーー"], &["京", "Ａ", "㍿", "(ア)", "東", "ア", "ＡＢＣ", "㌢", "ｰｰ"])
 }
 
 /// for the world with reordered input plugins: text that the first plugins shorten (long marks,
